@@ -26,6 +26,37 @@ theorem C10_gen_checks :
     Generated.C10.readerChecksPerToken = some true ∧
     Generated.C10.deadlineSynchronised = some true := by decide
 
+/-- the functions of the package that write to the encoder or to the connection themselves:
+the three one-shot transmit functions (they test the closed bit, `C10_gen_checks`), the token
+writer's two methods (they test it per token), the two closers, a read-only probe, and stream
+negotiation (`negotiateSession`, `negotiator`, `writeStreamFeatures`, `teeConn.Write`), which runs
+before the session is handed to its user.  A new function that writes on its own changes this list -/
+def expectedWireFns : List String :=
+  ["Encode", "EncodeElement", "closeSession", "lockWriteCloser.EncodeToken", "lockWriteCloser.Flush",
+   "negotiateSession", "negotiator", "outputBroken", "send", "sendError", "teeConn.Write", "writeStreamFeatures"]
+
+theorem C10_gen_wire_fns : Generated.C10.wireFns = some expectedWireFns := by decide
+
+/-- the wire functions whose behaviour with respect to closing is modelled and checked -/
+def checkedWireFns : List String :=
+  ["send", "Encode", "EncodeElement", "lockWriteCloser.EncodeToken", "lockWriteCloser.Flush", "closeSession", "sendError"]
+
+/-- **every exported method of `*Session` that can reach the wire** (Send*, Encode*, SendIQ*,
+SendMessage*, SendPresence*, UnmarshalIQ*, IterIQ*, Close, Serve, …; call graph by name, an
+over-approximation) reaches it only through the checked functions -/
+theorem C10_gen_entry_points :
+    ∃ t, Generated.C10.entryPoints = some t ∧ ∀ e ∈ t, ∀ w ∈ e.2, w ∈ checkedWireFns := by
+  refine ⟨_, rfl, by decide⟩
+
+/-- and the list contains every transmit family of the property's text -/
+theorem C10_gen_entry_points_complete :
+    ∃ t, Generated.C10.entryPoints = some t ∧
+      ∀ n ∈ ["Send", "SendElement", "Encode", "EncodeElement", "SendIQ", "SendIQElement", "EncodeIQ", "EncodeIQElement",
+        "SendMessage", "SendMessageElement", "EncodeMessage", "EncodeMessageElement", "SendPresence",
+        "SendPresenceElement", "EncodePresence", "EncodePresenceElement", "UnmarshalIQ", "UnmarshalIQElement",
+        "IterIQ", "IterIQElement", "Close", "Serve"], n ∈ t.map (·.1) := by
+  refine ⟨_, rfl, by decide⟩
+
 /-! ### Interleavings -/
 
 open Lts in
@@ -256,6 +287,33 @@ theorem hinv_serveReturns (s : Hist.St) (h : HInv s) (r : Ret) (hr : r ≠ .runn
           inClosed := fun _ => ⟨hr, hn⟩ }
 
 open Hist in
+theorem closeOut_closed (s : Hist.St) : (closeOut s).outClosed = true := by
+  unfold closeOut; split <;> simp_all
+
+open Hist in
+theorem outClosed_mono (s : Hist.St) (op : Op) (hc : s.outClosed = true) : (step s op).1.outClosed = true := by
+  have hsr : ∀ (t : Hist.St) r, (serveReturns t r).outClosed = true := fun t r => closeOut_closed t
+  cases op with
+  | close => exact closeOut_closed s
+  | tx => simp [step, hc]
+  | read => simp only [step]; split <;> exact hc
+  | peerStanza => simp only [step]; split; exact hc; split; exact hsr s _; exact hc
+  | peerStanzaReply => simp only [step]; split; exact hc; split; exact hsr s _; simp only [hc, if_true]; exact hsr s _
+  | handlerErr => simp only [step]; split; exact hc; split <;> exact hsr s _
+  | handlerStreamErr => simp only [step]; split; exact hc; split <;> exact hsr s _
+  | peerStreamErr => simp only [step]; split; exact hc; split <;> exact hsr s _
+  | peerClose => simp only [step]; split; exact hc; split <;> exact hsr s _
+  | peerGarbage => simp only [step]; split; exact hc; split <;> exact hsr s _
+  | deadline => simp only [step]; split; exact hc; split <;> exact hsr s _
+  | setDeadline k => simp only [step]; split; exact hsr _ _; exact hc
+  | startServe =>
+    simp only [step]; split
+    · split
+      · exact hsr s _
+      · exact hc
+    · exact hc
+
+open Hist in
 theorem hinv_step (s : Hist.St) (h : HInv s) (op : Op) : HInv (step s op).1 := by
   have tx : ∀ (hc : s.outClosed = false), HInv { s with wire := s.wire ++ [Item.el] } := by
     intro hc
@@ -272,21 +330,39 @@ theorem hinv_step (s : Hist.St) (h : HInv s) (op : Op) : HInv (step s op).1 := b
     · have hc' : s.outClosed = false := by simpa using hc
       rw [if_neg hc]; exact tx hc'
   | read => simp only [step]; split <;> exact h
-  | peerStanza => simp only [step]; split <;> exact h
+  | setDeadline k =>
+    have h' : HInv { s with ctxPast := k != .future } := ⟨h.open_, h.shut, h.served, h.inClosed⟩
+    simp only [step]; split
+    · exact hinv_serveReturns _ h' _ (by decide) (by decide)
+    · exact h'
+  | startServe =>
+    simp only [step]; split
+    · rename_i hns
+      split
+      · exact hinv_serveReturns s h _ (by decide) (by decide)
+      · refine ⟨h.open_, h.shut, fun a _ => absurd rfl a, fun hi => ?_⟩
+        have := (h.inClosed hi).2
+        simp only [beq_iff_eq] at hns
+        exact absurd hns this
+    · exact h
+  | peerStanza =>
+    simp only [step]; split; exact h; split; exact hinv_serveReturns s h _ (by decide) (by decide); exact h
   | peerStanzaReply =>
     simp only [step]
     split
     · exact h
-    · by_cases hc : s.outClosed = true
-      · rw [if_pos hc]; exact hinv_serveReturns s h _ (by decide) (by decide)
-      · have hc' : s.outClosed = false := by simpa using hc
-        rw [if_neg hc]; exact tx hc'
-  | handlerErr => simp only [step]; split; exact h; exact hinv_serveReturns s h _ (by decide) (by decide)
-  | handlerStreamErr => simp only [step]; split; exact h; exact hinv_serveReturns s h _ (by decide) (by decide)
-  | peerStreamErr => simp only [step]; split; exact h; exact hinv_serveReturns s h _ (by decide) (by decide)
-  | peerClose => simp only [step]; split; exact h; exact hinv_serveReturns s h _ (by decide) (by decide)
-  | peerGarbage => simp only [step]; split; exact h; exact hinv_serveReturns s h _ (by decide) (by decide)
-  | deadline => simp only [step]; split; exact h; exact hinv_serveReturns s h _ (by decide) (by decide)
+    · split
+      · exact hinv_serveReturns s h _ (by decide) (by decide)
+      · by_cases hc : s.outClosed = true
+        · rw [if_pos hc]; exact hinv_serveReturns s h _ (by decide) (by decide)
+        · have hc' : s.outClosed = false := by simpa using hc
+          rw [if_neg hc]; exact tx hc'
+  | handlerErr => simp only [step]; split; exact h; split <;> exact hinv_serveReturns s h _ (by decide) (by decide)
+  | handlerStreamErr => simp only [step]; split; exact h; split <;> exact hinv_serveReturns s h _ (by decide) (by decide)
+  | peerStreamErr => simp only [step]; split; exact h; split <;> exact hinv_serveReturns s h _ (by decide) (by decide)
+  | peerClose => simp only [step]; split; exact h; split <;> exact hinv_serveReturns s h _ (by decide) (by decide)
+  | peerGarbage => simp only [step]; split; exact h; split <;> exact hinv_serveReturns s h _ (by decide) (by decide)
+  | deadline => simp only [step]; split; exact h; split <;> exact hinv_serveReturns s h _ (by decide) (by decide)
 
 open Hist in
 theorem hinv_run (ops : List Op) : ∀ s, HInv s → HInv (run s ops).1 := by
@@ -315,8 +391,7 @@ theorem C10_hist_close_exactly_once (serve : Bool) (ops1 ops2 : List Op) :
     | nil => intro s _ h; exact h
     | cons op ops ih =>
       intro s hi hc
-      refine ih _ (hinv_step s hi op) ?_
-      cases op <;> simp only [step, closeOut, serveReturns, hc, if_true] <;> (try split) <;> simp [hc]
+      exact ih _ (hinv_step s hi op) (outClosed_mono s op hc)
   have runapp : ∀ (a b : List Op) (s : Hist.St), (run s (a ++ b)).1 = (run (run s a).1 b).1 := by
     intro a
     induction a with
@@ -361,19 +436,31 @@ open Hist in
 /-- **Serve returns**: peer close ⇒ nil; a stream error in either direction ⇒ that error; the
 deadline ⇒ an error; a handler error ⇒ that error; and on return both directions are closed and
 the closing tag is written -/
-theorem C10_serve_returns (s : Hist.St) (hr : s.serve = .running) :
+theorem C10_serve_returns (s : Hist.St) (hr : s.serve = .running) (hctx : s.ctxPast = false) :
     (step s .peerClose).1.serve = .nil_ ∧ (step s .peerStreamErr).1.serve = .peerStreamErr ∧
     (step s .handlerStreamErr).1.serve = .streamErr ∧ (step s .handlerErr).1.serve = .handlerErr ∧
     (step s .deadline).1.serve = .deadline ∧
     ∀ op ∈ [Op.peerClose, .peerStreamErr, .handlerStreamErr, .handlerErr, .deadline, .peerGarbage],
       (step s op).1.inClosed = true ∧ (step s op).1.outClosed = true := by
-  refine ⟨by simp [step, hr, serveReturns], by simp [step, hr, serveReturns], by simp [step, hr, serveReturns],
-    by simp [step, hr, serveReturns], by simp [step, hr, serveReturns], ?_⟩
+  refine ⟨by simp [step, hr, hctx, serveReturns], by simp [step, hr, hctx, serveReturns],
+    by simp [step, hr, hctx, serveReturns], by simp [step, hr, hctx, serveReturns],
+    by simp [step, hr, hctx, serveReturns], ?_⟩
   intro op hop
   simp only [List.mem_cons, List.not_mem_nil, or_false] at hop
   rcases hop with rfl | rfl | rfl | rfl | rfl | rfl <;>
-    (simp only [step, hr, bne_self_eq_false, Bool.false_eq_true, if_false, serveReturns, closeOut]
-     split <;> simp_all)
+    exact ⟨by simp [step, hr, hctx, serveReturns], by simp [step, hr, hctx, serveReturns, closeOut_closed]⟩
+
+open Hist in
+/-- with an expired input context (a zero-time or past deadline) `Serve` returns the deadline
+error at the next peer input instead of handling it, and both directions are closed -/
+theorem C10_serve_returns_expired (s : Hist.St) (hr : s.serve = .running) (hctx : s.ctxPast = true)
+    (op : Op) (hop : op ∈ [Op.peerStanza, .peerStanzaReply, .handlerErr, .handlerStreamErr, .peerStreamErr,
+      .peerClose]) :
+    (step s op).1.serve = .deadline ∧ (step s op).1.inClosed = true ∧ (step s op).1.outClosed = true := by
+  simp only [List.mem_cons, List.not_mem_nil, or_false] at hop
+  rcases hop with rfl | rfl | rfl | rfl | rfl | rfl <;>
+    exact ⟨by simp [step, hr, hctx, serveReturns], by simp [step, hr, hctx, serveReturns],
+      by simp [step, hr, hctx, serveReturns, closeOut_closed]⟩
 
 open Hist in
 /-- in every history, once `Serve` has returned both directions are marked closed -/
@@ -386,5 +473,110 @@ open Hist in
 /-- **read-after**: once the input is closed, reads fail with the input-closed error -/
 theorem C10_read_after (s : Hist.St) (hc : s.inClosed = true) : step s .read = (s, .closedIn) := by
   simp [step, hc]
+
+open Hist in
+theorem run_append (a b : List Op) : ∀ s : Hist.St, (run s (a ++ b)).1 = (run (run s a).1 b).1 := by
+  induction a with
+  | nil => intro s; rfl
+  | cons x a ih => intro s; simp only [List.cons_append, run]; exact ih _
+
+open Hist in
+/-- before `Serve` runs, `SetCloseDeadline` calls change nothing but the context in force -/
+theorem deadlines_before_serve (ds : List DKind) :
+    ∀ s : Hist.St, s.serve = .notStarted → ∃ b, (run s (ds.map .setDeadline)).1 = { s with ctxPast := b } := by
+  induction ds with
+  | nil => intro s _; exact ⟨s.ctxPast, rfl⟩
+  | cons k ds ih =>
+    intro s hs
+    simp only [List.map_cons, run]
+    have hstep : (step s (.setDeadline k)).1 = { s with ctxPast := k != .future } := by
+      simp [step, hs]
+    rw [hstep]
+    obtain ⟨b, hb⟩ := ih { s with ctxPast := k != .future } hs
+    exact ⟨b, by rw [hb]⟩
+
+open Hist in
+/-- **the deadline in force is the last one set**: whatever deadlines were set before (past,
+future, zero, in any number and order), `Serve` started after `SetCloseDeadline(t)` runs iff `t`
+is in the future, and returns the deadline error at once otherwise -/
+theorem C10_last_deadline_wins (ds : List DKind) (k : DKind) :
+    (run (init false) ((ds ++ [k]).map .setDeadline ++ [.startServe])).1.serve =
+      if k = .future then .running else .deadline := by
+  rw [run_append, List.map_append, run_append]
+  obtain ⟨b, hb⟩ := deadlines_before_serve ds (init false) rfl
+  rw [hb]
+  cases k <;> simp [run, step, init, serveReturns, closeOut]
+
+open Hist in
+/-- … and while `Serve` is running a deadline in the past ends it at once, one in the future
+leaves it running -/
+theorem C10_deadline_while_serving (s : Hist.St) (hr : s.serve = .running) :
+    (step s (.setDeadline .past)).1.serve = .deadline ∧ (step s (.setDeadline .future)).1.serve = .running ∧
+    (step s (.setDeadline .future)).1.ctxPast = false := by
+  simp [step, hr, serveReturns]
+
+/-! ### A failing connection write -/
+
+open WHist in
+/-- once a close has been attempted — successfully or not — nothing changes any more -/
+theorem wstep_closed (f : Option Nat) (s : WHist.St) (op : WHist.Op) (h : s.outClosed = true) :
+    (WHist.step f s op).1 = s := by
+  cases op <;> simp [WHist.step, h]
+
+open WHist in
+theorem wrun_closed (f : Option Nat) (ops : List WHist.Op) :
+    ∀ s : WHist.St, s.outClosed = true → (WHist.run f s ops).1 = s := by
+  induction ops with
+  | nil => intro s _; rfl
+  | cons op ops ih =>
+    intro s h
+    simp only [WHist.run]
+    rw [wstep_closed f s op h]
+    exact ih s h
+
+open WHist in
+/-- **one attempt**: whichever connection write fails, the closing tag is handed to the
+connection at most once, and exactly once when the output is marked closed (the bit is set
+before the write, so a failed close is still a close) -/
+theorem C10_close_attempt_once (f : Option Nat) (ops : List WHist.Op) :
+    (WHist.run f WHist.init ops).1.closeAttempts ≤ 1 ∧
+    ((WHist.run f WHist.init ops).1.outClosed = true ↔ (WHist.run f WHist.init ops).1.closeAttempts = 1) := by
+  have key : ∀ (ops : List WHist.Op) (s : WHist.St), s.outClosed = false → s.closeAttempts = 0 →
+      (WHist.run f s ops).1.closeAttempts ≤ 1 ∧
+      ((WHist.run f s ops).1.outClosed = true ↔ (WHist.run f s ops).1.closeAttempts = 1) := by
+    intro ops
+    induction ops with
+    | nil => intro s h0 h1; simp [WHist.run, h0, h1]
+    | cons op ops ih =>
+      intro s h0 h1
+      simp only [WHist.run]
+      cases op with
+      | tx =>
+        have : (WHist.step f s .tx).1.outClosed = false ∧ (WHist.step f s .tx).1.closeAttempts = 0 := by
+          simp only [WHist.step, h0, Bool.false_eq_true, if_false]
+          split
+          · exact ⟨h0, h1⟩
+          · split <;> exact ⟨rfl, h1⟩
+        exact ih _ this.1 this.2
+      | close =>
+        have hc : (WHist.step f s .close).1.outClosed = true ∧ (WHist.step f s .close).1.closeAttempts = 1 := by
+          simp only [WHist.step, h0, Bool.false_eq_true, if_false]
+          split <;> simp [h1]
+        rw [wrun_closed f ops _ hc.1]
+        simp [hc.1, hc.2]
+  exact key ops WHist.init rfl rfl
+
+open WHist in
+/-- … and nothing at all is written after it -/
+theorem C10_nothing_after_close_attempt (f : Option Nat) (ops1 ops2 : List WHist.Op)
+    (h : (WHist.run f WHist.init ops1).1.outClosed = true) :
+    (WHist.run f (WHist.run f WHist.init ops1).1 ops2).1 = (WHist.run f WHist.init ops1).1 :=
+  wrun_closed f ops2 _ h
+
+open WHist in
+/-- after a flush failed the encoder is dead: every later transmit call fails without writing -/
+theorem C10_dead_encoder (f : Option Nat) (s : WHist.St) (hd : s.encDead = true) (ho : s.outClosed = false) :
+    WHist.step f s .tx = (s, .ioErr) := by
+  simp [WHist.step, hd, ho]
 
 end XmppModel.Props.C10
